@@ -40,6 +40,7 @@ warnings.simplefilter("ignore")
 
 GEN_UNITS = ["GenAutodiff"]
 RTOL, ATOL = 1e-4, 1e-5
+REG_RTOL, REG_ATOL = 1e-3, 1e-3
 
 
 # ===================================================================== tie D: the batcher
@@ -102,7 +103,7 @@ def _gen_batch_cases(rng, n):
 
 
 def _natlist(l):
-    return "[" + "; ".join(str(int(x)) for x in l) + "]"
+    return "([" + "; ".join(str(int(x)) for x in l) + "]%nat : list nat)"
 
 
 def _zl(l):
@@ -110,7 +111,7 @@ def _zl(l):
 
 
 def _optnat(d):
-    return "None" if d is None else f"(Some {int(d)})"
+    return "None" if d is None else f"(Some {int(d)}%nat)"
 
 
 def tie_batcher(ctx):
@@ -123,7 +124,7 @@ def tie_batcher(ctx):
     fixed_code = bool(np.array_equal(np.moveaxis(np.asarray(out), od, 0), _np_vmap_ref(x, 0, y, None)))
     model = "batcher_fixed" if fixed_code else "batcher"
     ctx.coverage["batcher_variant_on_this_tree"] = "axes-after-batch (repaired)" if fixed_code else "axes-at-end (unchanged)"
-    n = 140 if ctx.tier == "quick" else 600
+    n = 100 if ctx.tier == "quick" else 600
     cases = _gen_batch_cases(rng, n)
     rows = []
     wrong = []
@@ -145,10 +146,10 @@ def tie_batcher(ctx):
             wrong.append(((sx, dx, sy, dy), "raises " + type(e).__name__, list(ref.shape)))
         rows.append((sx, dx, sy, dy, xa, ya, real, ref))
     # inside Coq: model result == real result ; vmap_spec == numpy stack of examples
-    hdr = common.CASES_HEADER + "From J2O Require Import Tensor Batch.\nOpen Scope nat_scope.\n"
+    hdr = common.CASES_HEADER + "From J2O Require Import Tensor Batch.\n"
     hdr += ("Definition opz (a b : Z) : Z := (a * 1000 + b)%Z.\n"
             "Definition zl_eqb := list_eqb Z.eqb.\n"
-            "Definition compatp (x y : tensor Z) : tensor Z := mkT [] (fun _ => if bcompatb (shape x) (shape y) then 1%Z else 0%Z).\n"
+            "Definition compatp (x y : tensor Z) : tensor Z := mkT ([] : list nat) (fun _ => if bcompatb (shape x) (shape y) then 1%Z else 0%Z).\n"
             "Record bcase := mkC { sx : list nat; dx : option nat; datx : list Z; sy : list nat; dy : option nat; daty : list Z;\n"
             "  raises : bool; rshape : list nat; rod : nat; rflat : list Z; refshape : list nat; refflat : list Z }.\n"
             f"Definition model_ok (c : bcase) : bool :=\n"
@@ -168,10 +169,10 @@ def tie_batcher(ctx):
         for (sx, dx, sy, dy, xa, ya, real, ref) in chunk:
             rs, rd, rf = real if real is not None else ([], 0, [])
             items.append(f"mkC {_natlist(sx)} {_optnat(dx)} {_zl(xa.reshape(-1))} {_natlist(sy)} {_optnat(dy)} {_zl(ya.reshape(-1))} "
-                         f"{common.blit(real is None)} {_natlist(rs)} {rd} {_zl(rf)} {_natlist(ref.shape)} {_zl(ref.reshape(-1))}")
+                         f"{common.blit(real is None)} {_natlist(rs)} {rd}%nat {_zl(rf)} {_natlist(ref.shape)} {_zl(ref.reshape(-1))}")
         return ("Definition cs : list bcase := [" + ";\n ".join(items) + "].\n"
-                "Eval vm_compute in bad_idx_ model_ok 0 cs.\nEval vm_compute in bad_idx_ spec_ok 0 cs.\n")
-    res = common.coq_eval_batches(ctx, "c10_batcher", hdr, rows, render, per_file=70)
+                "Eval vm_compute in bad_idx_ model_ok 0%nat cs.\nEval vm_compute in bad_idx_ spec_ok 0%nat cs.\n")
+    res = common.coq_eval_batches(ctx, "c10_batcher", hdr, rows, render, per_file=35)
     bad_model, bad_spec, broke = [], [], None
     for k, (ok, out) in enumerate(res):
         lists = re.findall(r"=\s*(\[[^\]]*\]|nil)\s*:\s*list nat", out.replace("\n", " "))
@@ -180,7 +181,7 @@ def tie_batcher(ctx):
             continue
         for tgt, l in zip((bad_model, bad_spec), lists):
             if l not in ("nil", "[]"):
-                tgt += [k * 70 + int(v.replace("%nat", "")) for v in l.strip("[]").split(";") if v.strip()]
+                tgt += [k * 35 + int(v.replace("%nat", "")) for v in l.strip("[]").split(";") if v.strip()]
     desc = lambda i: {"x_shape": rows[i][0], "x_bdim": rows[i][1], "y_shape": rows[i][2], "y_bdim": rows[i][3],
                       "real": None if rows[i][6] is None else [rows[i][6][0], rows[i][6][1]]}
     ctx.oblige(f"tie:batcher-model({model})-equals-real-broadcast_batcher_compat({len(rows)} cases)", broke is None and not bad_model, "tie",
@@ -200,7 +201,7 @@ def tie_batcher(ctx):
         (sx, dx, sy, dy), got, want = next((w for w in wrong if w[0] == ((3, 3), 0, (3, 3), None)), wrong[0])
         ctx.violate("batcher:new-axes-appended-at-end",
                     f"broadcast_batcher_compat is not vmap for an elementwise numpy-broadcasting primitive: operands {sx} (bdim {dx}) and {sy} "
-                    f"(bdim {dy}) give {got} where the stack of per-example results has shape {want} / other values "
+                    f"(bdim {dy}) give {'other VALUES than' if got == want else str(got) + ' instead of'} the stack of per-example results (shape {want}) "
                     f"({len(wrong)} of {len(rows)} generated cases; _handle_scalar_broadcasting appends the new axes at the end)",
                     {"kind": "batcher", "x_shape": list(sx), "x_bdim": dx, "y_shape": list(sy), "y_bdim": dy})
     return fixed_code
@@ -371,6 +372,7 @@ def _functions():
     reg("tanh_affine", lambda x: jnp.tanh(x) * 2.0 + 1.0, [(4,)])
     reg("exp_sum", lambda x: jnp.sum(jnp.exp(x)), [(4,)])
     reg("softmax", lambda x: jax.nn.softmax(x), [(4,)])
+    reg("softmax_axis1", lambda x: jax.nn.softmax(x, axis=1), [(2, 3, 4)])
     reg("mean_square", lambda x: jnp.mean(x ** 2), [(3, 4)])
     reg("reshape_transpose", lambda x: jnp.transpose(jnp.reshape(x, (2, 2))) * x[0], [(4,)])
     reg("where_leaky", lambda x: jnp.where(x > 0, x, 0.1 * x), [(4,)])
@@ -403,7 +405,7 @@ def _functions():
     try:
         from flax import nnx
         lin = nnx.Linear(4, 3, rngs=nnx.Rngs(0))
-        reg("nnx_linear", lambda x: lin(x), [(4,)])
+        reg("nnx_linear", lambda x: lin(x), [(2, 4)])
     except Exception:                                   # flax not importable: the function is simply not explored
         pass
     return F
@@ -484,7 +486,7 @@ QUICK_T = {"vmap0", "vmap(0,None)", "vmap(None,0)", "vmap(1,0)", "vmap1", "vmap0
            "jvp", "vjp", "checkpoint", "custom_jvp", "custom_vjp", "grad_of_custom_vjp", "value_and_grad"}
 
 
-def _run_one(fn, shapes, rng):
+def _run_one(fn, shapes, rng, rtol=RTOL, atol=ATOL):
     """-> ("ok"|"mismatch"|"reject"|"ref_error", detail)"""
     import jax
     import onnxruntime as ort
@@ -513,7 +515,7 @@ def _run_one(fn, shapes, rng):
     for k, (r, o) in enumerate(zip(ref, out)):
         if tuple(r.shape) != tuple(o.shape):
             return "mismatch", f"output {k}: shape {tuple(o.shape)} instead of {tuple(r.shape)}"
-        if not np.allclose(r.astype(np.float64), np.asarray(o, dtype=np.float64), rtol=RTOL, atol=ATOL, equal_nan=True):
+        if not np.allclose(r.astype(np.float64), np.asarray(o, dtype=np.float64), rtol=rtol, atol=atol, equal_nan=True):
             d = float(np.max(np.abs(r.astype(np.float64) - np.asarray(o, dtype=np.float64))))
             return "mismatch", f"output {k}: values differ (max abs diff {d:.4g})"
     return "ok", ""
@@ -529,7 +531,13 @@ def explore(ctx, budget_s):
     done = 0
     skipped_budget = 0
     jobs = []
+    unsupported = {}
     for name, spec in F.items():
+        # "for every SUPPORTED f": the un-transformed f must itself export and agree with JAX (else it is property C01's business)
+        res, detail = _run_one(spec["fn"], spec["shapes"], np.random.RandomState((seed + hash_str(name)) % (2 ** 31 - 1)))
+        if res != "ok":
+            unsupported[name] = f"{res}: {detail}"
+            continue
         try:
             Ts = _transforms(name, spec)
         except Exception as e:
@@ -562,7 +570,8 @@ def explore(ctx, budget_s):
         if len(ctx.samples) < 12 and res == "ok" and done % 17 == 0:
             ctx.samples.append({"T": tn, "f": name, "shapes": [list(s) for s in shapes], "result": "agrees with JAX"})
     ctx.coverage.update({"transform_exports": done, "transform_results": stats, "per_transformation": perT,
-                         "functions": len(F), "transform_jobs_skipped_for_time_budget": skipped_budget,
+                         "functions": len(F), "functions_not_supported_untransformed": unsupported,
+                         "transform_jobs_skipped_for_time_budget": skipped_budget,
                          "loud_rejections_by_exception": {k: len(v) for k, v in rejects.items()},
                          "loud_rejection_examples": {k: v[:6] for k, v in rejects.items()}})
     return stats
@@ -571,6 +580,102 @@ def explore(ctx, budget_s):
 def hash_str(s):
     import hashlib
     return int(hashlib.sha1(s.encode()).hexdigest()[:8], 16)
+
+
+# ===================================================================== exploration: vmap over the testcase registry
+def _registry_selection():
+    """registry testcases of the substitute primitives with static float32 inputs (deterministic order)"""
+    import exports
+    sel = []
+    for tp in exports.registry_items():
+        if exports.tp_double(tp) or not str(tp.get("context", "")).startswith("primitives."):
+            continue
+        if tp.get("input_values") is not None or tp.get("input_dtypes") or tp.get("input_params"):
+            continue
+        if tp.get("inputs_as_nchw") or tp.get("outputs_as_nchw"):
+            continue
+        sh = tp.get("input_shapes")
+        if not sh or not all(isinstance(x, (tuple, list)) and all(isinstance(d, (int, np.integer)) for d in x) for x in sh):
+            continue
+        sel.append(tp)
+    return sel
+
+
+def _registry_one(tp):
+    """-> (status, detail) for vmap(f) of a registry testcase f; status in ok/mismatch/reject/ref_error/unsupported/nondet"""
+    import jax
+    import exports
+    key = exports.tp_key(tp)
+    try:
+        f = exports.tp_callable(tp, False)
+    except Exception as e:
+        return "unsupported", f"cannot instantiate: {type(e).__name__}"
+    shapes = [tuple(x) for x in tp["input_shapes"]]
+    res, detail = _run_one(f, shapes, np.random.RandomState(hash_str(key) % (2 ** 31 - 1)))
+    if res != "ok":
+        return "unsupported", f"un-transformed: {res}: {detail}"
+    ins = [np.random.RandomState(7).uniform(-1.5, 1.5, size=x).astype(np.float32) for x in shapes]
+    try:
+        a, b = _tree_np(f(*ins)), _tree_np(f(*ins))
+        if len(a) != len(b) or any(not np.array_equal(u, v, equal_nan=True) for u, v in zip(a, b)):
+            return "nondet", ""
+    except Exception:
+        return "nondet", ""
+    # registry callables are arbitrary (ill-conditioned ones included): only differences far above float32 noise count
+    return _run_one(jax.vmap(f), [(3,) + x for x in shapes], np.random.RandomState(hash_str(key + "|vmap0") % (2 ** 31 - 1)),
+                    rtol=REG_RTOL, atol=REG_ATOL)
+
+
+def _registry_worker(offset, stride, budget_s):
+    """child process: prints one JSON line per testcase"""
+    import logging
+    import sys
+    logging.disable(logging.CRITICAL)
+    import exports
+    t0 = time.time()
+    sel = _registry_selection()
+    for tp in sel[offset::stride]:
+        if time.time() - t0 > budget_s:
+            print(json.dumps({"key": exports.tp_key(tp), "status": "skipped_budget", "detail": ""}), flush=True)
+            continue
+        try:
+            st, d = _registry_one(tp)
+        except Exception as e:                           # harness-side problem with this testcase: not a verdict
+            st, d = "unsupported", f"harness: {type(e).__name__}: {str(e)[:100]}"
+        print(json.dumps({"key": exports.tp_key(tp), "status": st, "detail": d}), flush=True)
+    sys.stdout.flush()
+
+
+def explore_registry(ctx, budget_s, workers=3):
+    import subprocess
+    import sys
+    env = dict(os.environ)
+    procs = [subprocess.Popen([sys.executable, os.path.abspath(__file__), "registry", str(k), str(workers), str(int(budget_s))],
+                              stdout=subprocess.PIPE, stderr=subprocess.DEVNULL, text=True, env=env) for k in range(workers)]
+    stats = {}
+    rejects = []
+    n = 0
+    for p in procs:
+        try:
+            out, _ = p.communicate(timeout=budget_s + 240)
+        except subprocess.TimeoutExpired:
+            p.kill()
+            out, _ = p.communicate()
+        for line in out.splitlines():
+            try:
+                r = json.loads(line)
+            except Exception:
+                continue
+            n += 1
+            stats[r["status"]] = stats.get(r["status"], 0) + 1
+            if r["status"] == "mismatch":
+                ctx.violate(f"registry:vmap0:{r['key']}",
+                            f"export of vmap(f) for the registry testcase {r['key']} does not compute what JAX computes: {r['detail']}",
+                            {"kind": "registry", "key": r["key"]})
+            elif r["status"] == "reject" and len(rejects) < 8:
+                rejects.append(f"{r['key']}: {r['detail'][:80]}")
+    ctx.coverage.update({"registry_vmap_testcases": n, "registry_vmap_results": stats, "registry_vmap_rejection_examples": rejects})
+    return stats
 
 
 # ===================================================================== run / replay
@@ -592,12 +697,17 @@ def run(ctx):
     tie_inline(ctx)
     tie_linear(ctx)
     elapsed = time.time() - ctx.t0
-    budget = (225 if ctx.tier == "quick" else 1380) - elapsed
+    budget = (200 if ctx.tier == "quick" else 1080) - elapsed
     stats = explore(ctx, max(30.0, budget))
+    rstats = {}
+    if ctx.tier != "quick":
+        rstats = explore_registry(ctx, max(60.0, 1380 - (time.time() - ctx.t0) - 60))
     ctx.level = "proof"
     ctx.coverage.update({
-        "evaluations": ctx.coverage.get("batcher_cases", 0) + ctx.coverage.get("transform_exports", 0) + ctx.coverage.get("linear_evaluations", 0),
-        "distinct_nontrivial": ctx.coverage.get("transform_exports", 0) - stats["reject"] - stats["ref_error"],
+        "evaluations": ctx.coverage.get("batcher_cases", 0) + ctx.coverage.get("transform_exports", 0) + ctx.coverage.get("linear_evaluations", 0)
+        + ctx.coverage.get("registry_vmap_testcases", 0),
+        "distinct_nontrivial": ctx.coverage.get("transform_exports", 0) - stats["reject"] - stats["ref_error"]
+        + rstats.get("ok", 0) + rstats.get("mismatch", 0),
         "rule": "non-trivial = a (transformation, function) pair that exported and was compared numerically with JAX; batcher cases: generated "
                 "(operand shapes, batch dims) with numpy-compatible per-example shapes, ranks 0..3, incl. rank-deficient batched operands",
         "level_detail": "proof (batch rule, inlining, allow-list linearity) + exploration of T(f) on the real exporter; per-plugin batching/"
@@ -630,6 +740,15 @@ def replay(path):
             good = False
             print("real batcher raises", type(e).__name__, e, "-> still violated")
         return 0 if good else 1
+    if r.get("kind") == "registry":
+        import exports
+        tp = [t for t in exports.registry_items() if exports.tp_key(t) == r["key"]]
+        if not tp:
+            print("registry testcase no longer exists")
+            return 2
+        st, d = _registry_one(tp[0])
+        print(f"vmap({r['key']}): {st} {d}")
+        return 1 if st == "mismatch" else 0
     F = _functions()
     spec = F[r["f"]]
     for (tn, fn, shapes) in _transforms(r["f"], spec):
@@ -640,3 +759,9 @@ def replay(path):
             return 1 if res == "mismatch" else 0
     print("transformation not found")
     return 2
+
+
+if __name__ == "__main__":
+    import sys
+    if len(sys.argv) >= 5 and sys.argv[1] == "registry":
+        _registry_worker(int(sys.argv[2]), int(sys.argv[3]), float(sys.argv[4]))
